@@ -142,13 +142,13 @@ func main() {
 							c = c2
 						} else {
 							fmt.Printf("NOTE property=%s: inlined view (%s) also has %d undischarged obligation(s); the tree as written is reported\n", id, strings.Join(inlNames, ", "), c2.unresolved())
-						if os.Getenv("VERIF_DEBUG_INLINE") != "" {
-							for _, o := range c2.Obls {
-								if o.Status != stOK {
-									fmt.Printf("  INLINED-VIEW %s %s [%s] %s %s\n", o.Status, o.Rule, o.Key, o.Pos, o.Msg)
+							if os.Getenv("VERIF_DEBUG_INLINE") != "" {
+								for _, o := range c2.Obls {
+									if o.Status != stOK {
+										fmt.Printf("  INLINED-VIEW %s %s [%s] %s %s\n", o.Status, o.Rule, o.Key, o.Pos, o.Msg)
+									}
 								}
 							}
-						}
 						}
 					}
 				}
